@@ -706,6 +706,8 @@ def main():
         thread_main(0, threads[0])
     for t in ths:
         t.join()
+    if PROGRAM.get("tail"):
+        thread_main(98, PROGRAM["tail"])
     end = PROGRAM.get("end", "return")
     log("program_end", end=end, undone=[n for n, f in FUTS.items() if not f.done()])
     if end == "return":
